@@ -58,6 +58,10 @@ def run_worker(args):
     reach = Reach(REPO)
     if os.environ.get("STIXMON_REACH", "1") != "0":
         reach.start()
+    echo = None
+    if getattr(mod, "ECHO", None) and os.environ.get("STIXMON_ECHO", "1") != "0":
+        from . import echo
+        echo.install(mod.ECHO)
     errmon = None
     if getattr(mod, "PRINTABLE_ERRORS", False):
         from .errmon import ErrorMonitor
@@ -86,6 +90,8 @@ def run_worker(args):
     reach.stop()
     d = ctx.dump()
     d["reach"] = reach.dump()
+    if echo is not None:
+        d["echo"] = echo.dump()
     d["wall_s"] = time.time() - t0
     tmp = args.out + ".tmp"
     with open(tmp, "w") as f:
@@ -164,6 +170,45 @@ def validate_evidence(ev):
         return str(e)[:500]
 
 
+def echo_pass(pid, args, results, m, inconclusive):
+    """One fresh interpreter repeats, in reverse order, a sample of the pure calls the shards recorded; answers are compared."""
+    recs = []
+    per_shard = max(50, 1500 // max(1, len(results)))
+    for r in results:
+        recs.extend(r.get("echo", [])[:per_shard])
+    m["counters"]["echo_calls_recorded"] = len(recs)
+    if not recs:
+        return
+    fp = os.path.join(OUT, "work", "%s-%s-echo.json" % (pid, args.tier))
+    with open(fp, "w") as f:
+        json.dump(recs, f)
+    try:
+        p = subprocess.run([sys.executable, "-X", "faulthandler", "-m", "stixmon.echo", fp], capture_output=True, text=True, cwd=HOME, timeout=600)
+        answers = json.loads(p.stdout)
+    except Exception as e:
+        inconclusive.append("echo pass failed: %r" % (e,))
+        return
+    compared = differ = 0
+    for (path, blob, first), second in zip(recs, answers):
+        if second is None or second.startswith("unreplayable:"):
+            continue
+        compared += 1
+        if first != second:
+            differ += 1
+            key = "answer-depends-on-process-history:" + path.split(":", 1)[1]
+            try:
+                import pickle
+                shown = repr(pickle.loads(bytes.fromhex(blob)))[:600]
+            except Exception:
+                shown = "<arguments need the library to unpickle>"
+            m["violation_counts"][key] = m["violation_counts"].get(key, 0) + 1
+            if len(m["violations"].setdefault(key, [])) < 2:
+                m["violations"][key].append({"key": key, "workload": "echo", "index": 0, "message": "%s answered %s inside the workload and %s for the same arguments in a fresh interpreter (calls repeated in reverse order)" % (
+                    path, first[:110], second[:110]), "witness": {"function": path, "arguments": shown, "in_workload": first, "in_fresh_interpreter": second}})
+    m["counters"]["echo_calls_compared"] = compared
+    m["counters"]["echo_calls_differing"] = differ
+
+
 def run_parent(args):
     t0 = time.time()
     mod = load_check(args.id)
@@ -210,6 +255,8 @@ def run_parent(args):
 
     m = merge(results)
     known = load_known()
+    if getattr(mod, "ECHO", None) and results:
+        echo_pass(pid, args, results, m, inconclusive)
 
     # ---- violations
     unknown, known_hit = [], []
